@@ -67,15 +67,6 @@ package handler
 //@        leaseOf(KVval[mskey(ms)], lease.LeaseID).State == types.LeaseClosed && bidOf(KVval[mskey(ms)], bid.BidID).State == types.BidClosed
 //@        && ordOf(KVval[mskey(ms)], order.OrderID).State == types.OrderClosed
 //@   oncall keeper.(IKeeper).CreateOrder 1 assert KVhas[dskey(ms)][groupKeyOf(asGroup(msg.LeaseID))] && grpOf(KVval[dskey(ms)], asGroup(msg.LeaseID)).State == dtypes.GroupOpen
-//@ spec asOrder(id: types.LeaseID): types.OrderID
-//@ axiom asOrderDef: forall id: types.LeaseID :: asOrder(id).Owner == id.Owner && asOrder(id).DSeq == id.DSeq && asOrder(id).GSeq == id.GSeq && asOrder(id).OSeq == id.OSeq
-//@   trigger asOrder(id)
-//@ spec asBid(id: types.LeaseID): types.BidID
-//@ axiom asBidDef: forall id: types.LeaseID :: asBid(id).Owner == id.Owner && asBid(id).DSeq == id.DSeq && asBid(id).GSeq == id.GSeq && asBid(id).OSeq == id.OSeq && asBid(id).Provider == id.Provider
-//@   trigger asBid(id)
-//@ spec asGroup(id: types.LeaseID): dtypes.GroupID
-//@ axiom asGroupDef: forall id: types.LeaseID :: asGroup(id).Owner == id.Owner && asGroup(id).DSeq == id.DSeq && asGroup(id).GSeq == id.GSeq
-//@   trigger asGroup(id)
 
 // ---- CloseBid ---------------------------------------------------------------------------------
 // An open bid is simply closed; a matched bid is closed together with its active lease and its order, the group
